@@ -211,10 +211,16 @@ def run_unit(u, workdir):
         cb += ['--unwind', str(u['unwind']), '--unwinding-assertions']
     cb += u.get('flags', [])
     res['checker_cmd'] = ' '.join(gi[:-2]) + ' ... && ' + ' '.join(cb)
-    rc, out, err, secs = run(cb, u.get('timeout', CBMC_TIMEOUT))
+    # back ends: cadical first (minisat needed >300 s where cadical needs 7 s on the same formula), then the others
+    tmo = u.get('timeout', CBMC_TIMEOUT)
+    for be, share in (('--sat-solver cadical', 0.5), ('--external-sat-solver kissat', 0.25), ('', 0.25)):
+        rc, out, err, secs = run(cb + be.split(), max(30, int(tmo * share)))
+        res['backend'] = be.split()[-1] if be else 'minisat2'
+        if rc != 'timeout':
+            break
     res['solver_s'] = round(secs, 2)
     if rc == 'timeout':
-        res['reason'] = 'cbmc timeout after %ds' % u.get('timeout', CBMC_TIMEOUT)
+        res['reason'] = 'cbmc timeout after %ds on all back ends' % tmo
         return res
     if rc not in (0, 10):
         res['reason'] = 'cbmc ended abnormally (exit %s; memory limit %d GB?): %s' % (rc, CBMC_MEM_GB, (err or out)[-600:])
